@@ -60,7 +60,7 @@ def initSt (c : Case) : St :=
 /-- the write line of a case -/
 def writeLine (c : Case) : Bytes :=
   match c.data with
-  | .text t => if !(enc t).contains Tty.LF && !(enc t).contains Tty.CR then printfLine c.path (enc t) else teeLine c.path
+  | .text t => if fastPath (enc t) then printfLine c.path (enc t) else teeLine c.path
   | .bytes _ => b64TeeLine c.path
 
 /-- everything tbot is meant to type during the write (what the remote's answer is computed from) -/
@@ -69,7 +69,7 @@ def writeTyped (cd : Codec) (c : Case) : Bytes :=
   match c.data with
   | .text t =>
     let e := enc t
-    if !e.contains Tty.LF && !e.contains Tty.CR then printfLine c.path e ++ [Tty.CR] ++ status
+    if fastPath e then printfLine c.path e ++ [Tty.CR] ++ status
     else teeLine c.path ++ [Tty.CR] ++ e ++ (if !(e.isEmpty || endsInNl e) then [EOT] else []) ++ [EOT] ++ status
   | .bytes d =>
     b64TeeLine c.path ++ [Tty.CR] ++ (chunksOf Params.b64LineLen (cd.enc d)).flatMap (· ++ [Tty.CR]) ++ [EOT] ++ status
@@ -135,7 +135,7 @@ def textOk (c : Case) (t : List Char) : Bool :=
   let e := enc t
   !e.contains Tty.CR && !Chan.forbidden (blacklist c) e
   && maxLineLen e 0 0 ≤ ttyLineMax
-  && (e.contains Tty.LF || (printfLine c.path e).length ≤ ttyLineMax)
+  && (!fastPath e || (printfLine c.path e).length ≤ ttyLineMax)
   && !containsSub (prompt c) ((Tty.cook e ++ prompt c).dropLast)
 
 /-- **C11**: in the domain, the write returns the length, the file holds exactly the data and the
@@ -147,7 +147,7 @@ def spec (c : Case) (o : Obs) : Bool :=
     if Chan.forbidden (blacklist c) (enc t) then o.ret == .err "illegal"
     else if textOk c t then
       o.file == some (enc t) && o.back == .text t
-      && (o.ret == .n (enc t).length || (!(enc t).contains Tty.LF && o.ret == .n t.length))
+      && (o.ret == .n (enc t).length || (fastPath (enc t) && o.ret == .n t.length))
     else true
 
 end Files
